@@ -46,6 +46,8 @@ def cases(tier):
     for r in (1.5, 2.0):
         for n in ((2, 3) if tier == 'quick' else (2, 3, 4, 5)):
             cs.append(dict(kind='die', r=r, n=n, spec=(tier == 'thorough')))
+        for n in (1, 3):
+            cs.append(dict(kind='die', r=r, n=n, spec=True, noground=True))   # a die completely covered by tagged regions and a blockage
     return cs
 
 
@@ -108,6 +110,8 @@ def body(I, case):
         regions = [[b1 / 2, 0.5, b1, 1.0, '#']]
         if case['spec']:
             regions.append([b1 / 2, 1.5, b1, 1.0, 'dsp'])
+        if case.get('noground'):
+            regions.append([(b1 + b2) / 2, 1.0, b2 - b1, 2.0, 'bram'])
         die = Die({'width': b2, 'height': 2, 'regions': regions})
         before_ref, before_fixed = die.floorplanning_rectangles()
         before = list(before_ref)
